@@ -682,7 +682,7 @@ PROP = Property(
           "site set."),
     strategy=strategy,
     run_case=run_case,
-    budgets={"quick": 16000, "thorough": 150000},
+    budgets={"quick": 16000, "thorough": 300000},
     assumptions=[
         "create_time() and exe() are memoised for the life of the object and are not compared",
         "schedules are explored up to the stated segment bound at line granularity; "
